@@ -354,6 +354,18 @@ def cases(ctx):
              "abs": rng.choice(["int", "float", "complex", "frac"]),
              "bit_length": "int"}[which]
     yield ("attr", which, rspec(rng, etype, STREAM_KINDS), etype)
+  # (iii-b) operators leave a reusable operand usable: several expressions from
+  # the same ControlStream object (and direct reads of it in between)
+  for _ in ctx.loop(2500, 60000):
+    etype = rng.choice(["int", "float", "frac", "complex"])
+    ops = []
+    for _ in range(rng.randint(2, 5)):
+      base = rng.choice([o for o in ETYPE_OPS[etype] if o != "pow"])
+      refl = base in REFLECTABLE and rng.random() < 0.5
+      ops.append((("r" + base) if refl else base,
+                  rval(rng, etype, "right" if not refl else "left", base),
+                  rng.choice(["dunder", "syntax"])))
+    yield ("reuse", etype, rval(rng, etype), ops, rng.randint(1, 4))
   # (iv) broadcasting functions
   names = sorted(FUNCS)
   j = 0
@@ -812,6 +824,47 @@ def run_case(ctx, case):
     judge(ctx, case, "elementwise-attr/" + which, res, want)
     return bool(want[0])
 
+  if kind == "reuse":
+    _, etype, value, ops, nread = case
+    cs = ControlStream(value)
+    results = []
+    for name, scalar, style in ops:
+      refl = name not in BIN
+      func = BIN[name[1:] if refl else name]
+      if style == "dunder":
+        res = getattr(cs, "__%s__" % name)(scalar)
+      else:
+        res = func(scalar, cs) if refl else func(cs, scalar)
+      if res is cs:
+        ctx.violation("operator/%s/returns-its-operand" % name, case)
+        return True
+      results.append((name, func, refl, scalar, res))
+    ctx.count("reused-operand-expressions", len(results))
+    # every expression (in any order) and the operand itself still yield their own
+    direct = list(itertools.islice(iter(cs), nread))
+    if not same_list(direct, [value] * nread):
+      ctx.violation("operator/operand-altered-by-building-an-expression", case,
+                    got=direct, want=[value] * nread)
+      return True
+    for name, func, refl, scalar, res in reversed(results):
+      try:
+        want = func(scalar, value) if refl else func(value, scalar)
+        wterm = None
+      except Exception as exc:  # noqa
+        want, wterm = None, type(exc).__name__
+      items, term = observe(itertools.islice(iter(res), nread))
+      if wterm is not None:
+        if term != wterm:
+          ctx.violation("operator/%s/reused-operand-wrong-exception" % name,
+                        case, got=term, want=wterm)
+          return True
+        continue
+      if not same_list(items, [want] * nread):
+        ctx.violation("operator/%s/wrong-element-after-operand-reuse" % name,
+                      case, got=items, want=[want] * nread)
+        return True
+    return True
+
   if kind == "func":
     return run_func(ctx, case)
   raise ValueError(kind)
@@ -836,5 +889,6 @@ def finish(ctx):
     ctx.need("container:" + c, 20)
   ctx.need("lazy-element-compared", 100)
   ctx.need("secondary-operand", 100)
+  ctx.need("reused-operand-expressions", 500)
   ctx.flag("cov.operator_methods_in_library_table",
            len(list(OpMethod.get("all"))))
